@@ -446,6 +446,50 @@ class Replayer:
 
 # ------------------------------------------------------------------------------------------ main
 
+def law_case(task):
+    src, want = task
+    r = asm([("law.mac", src)], timeout=10)
+    if r["outcome"] == "ok" and r["code"] == want:
+        return None
+    return (src, want.hex(), r["outcome"], r["code"].hex() if r["code"] is not None else None, r["exc"], [x[1] for x in r["reports"]][:4])
+
+
+def big_number_laws(run):
+    """ArithLaws.tla: TLC checks the division/modulo/shift laws on a small grid; each law is then written as an expression over
+    big literals (beyond 2^53 and 2^64, out of reach of TLC's integers) whose value is 0 or 1 by the law, and assembled."""
+    res = require_ok(run_tlc("ArithLaws", cfg_text="SPECIFICATION Spec\nINVARIANT Laws\nINVARIANT Export\nCHECK_DEADLOCK FALSE\n", workers=1, label="ArithLaws (grid)"))
+    run.add_tlc(res)
+    if res.violated:
+        run.violation(f"model: ArithLaws {res.violated}", {"tail": res.tail})
+        return
+    rec = res.exports[0]
+    tasks = []
+    zero, one = b"\x00\x00", b"\x01\x00"
+    def g(x):                       # a group; closers are never glued ('>>' would be the shift operator)
+        return "<" + x + " >"
+    for a in rec["bigs"]:
+        for sa in ("", "-"):
+            A = g(f"{sa}{a}.")
+            for b in rec["divs"]:
+                for sb in ("", "-"):
+                    B = g(f"{sb}{b}.")
+                    tasks.append(("\t.word " + g(g(g(f"{A} / {B}") + f" * {B}") + " + " + g(f"{A} % {B}")) + f" - {A}\n", zero))     # (a/b)*b + a%b = a
+                    rng = g(g(f"{A} % {B}") + f" + {b}.") + f" / {b}." if sb == "" else g(f"{b}. - " + g(f"{A} % {B}")) + f" / {b}."
+                    tasks.append((f"\t.word {rng}\n", one))                       # 0 <= a%b < b (b > 0),  b < a%b <= 0 (b < 0)
+            for k in (1, 13, 40):
+                tasks.append(("\t.word " + g(g(f"{A} << {k}.") + f" >> {k}.") + f" - {A}\n", zero))                                 # (a << k) >> k = a
+                tasks.append(("\t.word " + g(f"{A} << {k}.") + " - " + g(f"{A} * " + g(f"1 << {k}.")) + "\n", zero))               # a << k = a * 2^k
+                tasks.append(("\t.word " + g(f"{A} _ {k}.") + " - " + g(f"{A} << {k}.") + "\n", zero))
+    for t, bad in zip(tasks, pmap(law_case, tasks)):
+        run.add_eval()
+        run.add_nontrivial(("law", t[0]))
+        if bad:
+            run.violation(f"big-number law: {bad[0].strip()!r} must assemble to {bad[1]}; real assembler: outcome={bad[2]} code={bad[3]} exc={bad[4]} {bad[5]}",
+                          {"source": bad[0], "expected": bad[1], "outcome": bad[2], "code": bad[3]}, files={"law.mac": bad[0]})
+    run.note("big_number_law_cases", len(tasks))
+    run.sample({"law": "(a/b)*b + a%b = a", "source": tasks[0][0].strip(), "expected_word": 0})
+
+
 def main(run):
     thorough = run.tier == "thorough"
     run.rule = ("every complete token string written by Expr.tla (BFS: all strings up to the stated number of tokens over "
@@ -596,6 +640,7 @@ def main(run):
         + [m for m in ("L", "SB", "SA", "AB", "AA", "LB", "dot") if not rep.modes[m]]
     if missing:
         raise MachineryError(f"vacuous run: never exercised {missing}")
+    big_number_laws(run)
     run.exhaustive = all_exhaustive
     run.assumptions += [
         "Expr.tla's table of precedence levels, associativity and operator meanings is the documented one (authored from the "
